@@ -14,10 +14,11 @@ def cfg(full, laws):
   Full = %s
   Emit = TRUE
   Widths = {32, 64}
+  MemAddrs = {%s}
 INIT Init
 NEXT Next
 %s
-""" % ("TRUE" if full else "FALSE", "INVARIANTS Laws" if laws else "")
+""" % ("TRUE" if full else "FALSE", "0, 1, 3, 1000, 65520" if full else "0, 1, 65520", "INVARIANTS Laws" if laws else "")
 
 
 def prepare(chk, thorough):
@@ -57,6 +58,8 @@ def run_node(out):
 
 
 def case_key(c):
+    if c["fn"].startswith("mem_") or c["fn"].startswith("ldb_"):
+        return c["fn"] + ("(oob)" if c["trap"] else "")
     cls = []
     for a in c["args"]:
         v = int(a)
